@@ -233,7 +233,7 @@ RECIPES = {
             r_for_over(r'reversed\(list\(enumerate\(stack\)\)\)', ['until_index', 'stack_node']),
         ],
         'Parser._stack_removal': [r_assigned_from(r'\[.* for .* in self\.stack\[start_index:\] for .*\]', 'all_nodes')],
-        'Parser._recovery_tokenize': [r_for_over(r'tokens', ['token']), r_assigned_from(r'self\._omit_dedent_list', 'o')],
+        'Parser._recovery_tokenize': [r_for_over(r'tokens', ['token']), r_assigned_from(r'self\._omit\w*', 'o')],
     },
     'parso/python/diff.py': {
         'DiffParser._diff_tokenize': [
@@ -326,6 +326,18 @@ class _NormalForm(ast.NodeTransformer):
                 new = ast.Tuple(elts=right.elts, ctx=ast.Load())
                 ast.copy_location(new, right)
                 node.comparators = [new]
+        return node
+
+    def visit_Call(self, node):
+        self.generic_visit(node)
+        # islice(X, k, None) / itertools.islice(X, k, None)  ->  X[k:]   (iterating a sequence from its k-th element)
+        f = node.func
+        name = f.id if isinstance(f, ast.Name) else (f.attr if isinstance(f, ast.Attribute) else None)
+        if name == 'islice' and len(node.args) == 3 and not node.keywords \
+                and isinstance(node.args[1], ast.Constant) and isinstance(node.args[1].value, int) \
+                and isinstance(node.args[2], ast.Constant) and node.args[2].value is None:
+            new = ast.Subscript(value=node.args[0], slice=ast.Slice(lower=node.args[1], upper=None, step=None), ctx=ast.Load())
+            return ast.copy_location(new, node)
         return node
 
     def visit_UnaryOp(self, node):
@@ -683,8 +695,8 @@ def _inline_callable_aliases(tree):
                     # a bare global: only containers / functions of the module (private names, the cache) are aliased
                     pass
                 mapping[name] = v
-            elif depth == 1 and ((len(stores.get(root, [])) == 1 and root not in params)
-                                 or (root in params and root not in stores and root not in nested_stores)):
+            elif (depth == 1 and len(stores.get(root, [])) == 1 and root not in params) \
+                    or (depth >= 1 and root in params and root not in stores and root not in nested_stores):
                 # bound method of a local object / of self: only used as a callee
                 mapping[name] = ('method', v)
         if not mapping:
@@ -713,11 +725,73 @@ def _inline_callable_aliases(tree):
     ast.fix_missing_locations(tree)
 
 
+def _inline_children_aliases(tree):
+    """children = node.children; ... children[2]   ->   node.children[2]
+    The hoisting idiom for the one attribute many rules reason about: a local assigned exactly once from
+    `<name>.children` (the name never rebound, `.children` of that name never re-assigned in the function) is spelled
+    out again.  Both spellings denote the same list object."""
+    import copy
+
+    def own_nodes(fn):
+        stack = list(fn.body)
+        while stack:
+            n = stack.pop()
+            yield n
+            if isinstance(n, (ast.FunctionDef, ast.AsyncFunctionDef, ast.ClassDef, ast.Lambda)):
+                continue
+            stack.extend(ast.iter_child_nodes(n))
+    for fn in [n for n in ast.walk(tree) if isinstance(n, (ast.FunctionDef, ast.AsyncFunctionDef))]:
+        a = fn.args
+        params = {x.arg for x in a.posonlyargs + a.args + a.kwonlyargs}
+        stores = {}
+        attr_stores = set()
+        nested_names = set()
+        for n in own_nodes(fn):
+            if isinstance(n, ast.Name) and isinstance(n.ctx, (ast.Store, ast.Del)):
+                stores.setdefault(n.id, []).append(n)
+            if isinstance(n, ast.Attribute) and isinstance(n.ctx, (ast.Store, ast.Del)) and n.attr == 'children' \
+                    and isinstance(n.value, ast.Name):
+                attr_stores.add(n.value.id)
+        for n in ast.walk(fn):
+            if n is not fn and isinstance(n, (ast.FunctionDef, ast.AsyncFunctionDef, ast.Lambda)):
+                for x in ast.walk(n):
+                    if isinstance(x, ast.Name):
+                        nested_names.add(x.id)
+        mapping = {}
+        for n in own_nodes(fn):
+            if isinstance(n, ast.Assign) and len(n.targets) == 1 and isinstance(n.targets[0], ast.Name) \
+                    and isinstance(n.value, ast.Attribute) and n.value.attr == 'children' and isinstance(n.value.value, ast.Name):
+                name, recv = n.targets[0].id, n.value.value.id
+                if len(stores.get(name, [])) == 1 and name not in params and name not in nested_names \
+                        and (recv in params and recv not in stores or len(stores.get(recv, [])) == 1 and recv not in params) \
+                        and recv not in attr_stores:
+                    # only when the assignment is a plain statement of the function body or of a try body (not conditional)
+                    mapping[name] = n.value
+        if not mapping:
+            continue
+
+        class Sub(ast.NodeTransformer):
+            def visit_FunctionDef(self, node):
+                return node if node is not fn else self.generic_visit(node)
+            visit_AsyncFunctionDef = visit_FunctionDef
+
+            def visit_Lambda(self, node):
+                return node
+
+            def visit_Name(self, node):
+                if node.id in mapping and isinstance(node.ctx, ast.Load):
+                    return ast.copy_location(copy.deepcopy(mapping[node.id]), node)
+                return node
+        Sub().visit(fn)
+    ast.fix_missing_locations(tree)
+
+
 def normal_form(tree, root=None, rel=None):
     # statement-level forms first (so that `x = E; return x` bodies count as single-return functions), then the
     # wrapper / implementation pairs, then extracted one-expression helpers, then expression forms
     _PlainAssign().visit(tree)
     _inline_callable_aliases(tree)
+    _inline_children_aliases(tree)
     _InlineReturn().visit(tree)
     _inline_delegators(tree, _identifiers_elsewhere(root, rel) if root and rel else frozenset())
     _inline_pure_helpers(tree)
